@@ -211,7 +211,15 @@ def run_body(mod, sp, x, decl):
         mod.put_variable(ins['col'], ins['name'], jnp.ones((), jnp.float32))
     elif k == 'sow':
       CTL.event('sow')
-      mod.sow(ins['col'], ins['name'], x)
+      if ins.get('how') == 'last_dict':
+        # keep-the-latest sow of dict values (the caller keeps using the first dict afterwards)
+        last = lambda a, b: b  # noqa: E731
+        d1 = {'a': x + 1.0}
+        mod.sow(ins['col'], ins['name'], d1, reduce_fn=last, init_fn=lambda: None)
+        mod.sow(ins['col'], ins['name'], {'a': x * 2.0}, reduce_fn=last, init_fn=lambda: None)
+        x = x + (d1['a'] - (x + 1.0))  # + 0 as long as nobody touched d1
+      else:
+        mod.sow(ins['col'], ins['name'], x)
     elif k == 'perturb':
       CTL.event('perturb')
       x = mod.perturb(ins['name'], x)
@@ -293,6 +301,8 @@ def gen_module(g, depth=0, budget=None, allow=('param', 'var', 'sow', 'perturb',
       body.append(dict(i='var', col=g.choice(COLS), name=fresh('v'), kind=g.choice(['counter', 'running'])))
     elif r < 0.58 and 'sow' in allow:
       body.append(dict(i='sow', col=g.choice(['intermediates', 'intermediates', 'aux']), name=fresh('s')))
+      if g.random() < 0.25:
+        body[-1]['how'] = 'last_dict'
     elif r < 0.64 and 'perturb' in allow:
       body.append(dict(i='perturb', name=fresh('p')))
     elif r < 0.74 and 'rng' in allow:
